@@ -59,7 +59,7 @@ class C11(Check):
                    'analytic MTF comparison tolerance 3/N (sampling of the pupil edge)']
 
     def budget(self, tier):
-        return (24, 8) if tier == 'quick' else (300, 16)
+        return (60, 8) if tier == 'quick' else (300, 16)
 
     def strategy(self, tier):
         if tier == 'quick':
@@ -225,7 +225,19 @@ class C11(Check):
         out.expect('mtf_frequency_axis', ok, got_step=float(xs[1] - xs[0]) if len(xs) > 1 else None,
                    want_step=float(cut_lib / N), cutoff=cut_lib, N=N, G=G)
         if GL.media(spec, w)[0][-1] == 1.0:
-            out.close('mtf_cutoff_value', float(m.max_freq), cutoff, rtol=1e-8)
+            at, av = spec['ap']['type'], spec['ap']['value']
+            finite = spec['obj']['t'] != GL.INF
+            p_ref = ps.XPD(at, av) / ps.EPD(at, av) if finite else 1.0
+            if finite and p_ref < 0 and out.kf_open('C11-inverted-pupil-fno'):
+                # weakened relation inside the finding's region: the library's expression F (1 + |m| / p) evaluated
+                # with the reference's signed pupil magnification
+                out.region('C11-inverted-pupil-fno')
+                F_ref = av if at == 'imageFNO' else abs(ps.f2()) / ps.EPD(at, av)
+                F_lib = F_ref * (1 + abs(ps.magnification(at, av)) / p_ref)
+                out.close('mtf_cutoff_value', float(m.max_freq), 1.0 / (w * 1e-3 * F_lib), rtol=1e-7,
+                          convention='known finding region')
+            else:
+                out.close('mtf_cutoff_value', float(m.max_freq), cutoff, rtol=1e-8)
         else:
             out.cls('image_in_glass_cutoff_convention')     # F-number of an image formed in glass: convention, not judged
         # geometric MTF
